@@ -713,8 +713,12 @@ def observable(cfg, recs):
         if r.terminal and r.terminal[0] == "left":
             # the consumer left: what the closing generator still does (a pong for a ping in flight, when the socket closes)
             # races with the server and is not compared
-            # (nor which of its frames the server had read when the run ended)
-            out.append({"yields": ys, "terminal": r.terminal, "subprotocol": r.opened[1] if r.opened else None, "headers": hs})
+            # (nor which of its frames the server had read when the run ended; a consumer that is cancelled by a timer leaves
+            # at a moment that differs by a few loop steps between the variants, so not even its item count is compared)
+            if cfg["subs"][r.index].get("cancel_after") is not None:
+                out.append({"terminal": "left", "subprotocol": r.opened[1] if r.opened else None})
+            else:
+                out.append({"yields": ys, "terminal": "left", "subprotocol": r.opened[1] if r.opened else None, "headers": hs})
             continue
         if someone_left and disturbed:
             # a consumer leaving early closes its generator through a different number of loop steps in the two variants;
